@@ -2640,9 +2640,10 @@ def groupby_reduce(
         if finalize_kwargs is None or "q" not in finalize_kwargs:
             raise ValueError("Please pass `q` for quantile calculations.")
         else:
-            if np.ndim(finalize_kwargs["q"]) > 0 and engine == "numpy":
+            if np.ndim(finalize_kwargs["q"]) > 0 and engine in ("numpy", "numba", "numbagg"):
+                # engines 'numba' and 'numbagg' fall back to the same per-group NumPy implementation
                 raise ValueError(
-                    "Multiple quantiles not supported with engine='numpy'."
+                    f"Multiple quantiles not supported with engine={engine!r}."
                     "Use engine='flox' instead (it is also much faster), "
                     "or set engine=None to use the default."
                 )
